@@ -3028,6 +3028,9 @@ func (pc *PeerConnection) generateMatchedSDP(
 		kind := NewRTPCodecType(media.MediaName.Media)
 		direction := getPeerDirection(media)
 		if kind == 0 || direction == RTPTransceiverDirectionUnknown {
+			// not usable, but still described: rejected in place
+			mediaSections = append(mediaSections, mediaSection{id: midValue, rejected: &media.MediaName})
+
 			continue
 		}
 
